@@ -63,6 +63,12 @@ Section Alpha.
   Variable cn : string -> meta -> option string.
   Variable kn : meta -> option string.
 
+  (* fix f58b98e: whether a loop has a counter is decided by the NAME of the counter occurring as a
+     dimension among the declarations of its body.  A renaming that sends another name onto the image of
+     a loop counter changes that decision, so the renaming theorems need: no other name is identified
+     with a loop counter. *)
+  Hypothesis Hsep : forall m k x, kn m = Some k -> f x = f k -> x = k.
+
   Definition cn' (id : string) (m : meta) : option string := option_map f (cn id m).
   Definition kn' (m : meta) : option string := option_map f (kn m).
 
@@ -311,6 +317,22 @@ Section Alpha.
     - rewrite flat_map_map, map_flat_map. reflexivity.
   Qed.
 
+  Lemma counted_ren : forall m k, kn m = Some k -> forall s, counted_by (f k) (RS s) = counted_by k s.
+  Proof.
+    intros m k Ek s. destruct s as [| | | |dm dt dn dims dc| | | | | |]; cbn [ren_s counted_by]; try reflexivity.
+    induction dims as [|e l IH]; cbn [map existsb]; [reflexivity|]. rewrite IH. f_equal.
+    destruct e as [| | | |vm vn vacc| | | | |]; cbn [ren_e]; try reflexivity.
+    destruct (String.eqb_spec vn k) as [->|Hne]; [apply String.eqb_refl|].
+    apply String.eqb_neq. intros E. apply Hne. eapply Hsep; eauto.
+  Qed.
+
+  Lemma existsb_counted_ren : forall m k, kn m = Some k -> forall d,
+    existsb (counted_by (f k)) (map RS d) = existsb (counted_by k) d.
+  Proof.
+    intros m k Ek d. induction d as [|s d IH]; cbn [map existsb]; [reflexivity|].
+    rewrite IH, (counted_ren m k Ek). reflexivity.
+  Qed.
+
   Definition PS (s : statement) : Prop := RS s = s -> forall ix, XSt ix s.
 
   Lemma xstmt_ren_all : forall s, PS s.
@@ -329,11 +351,13 @@ Section Alpha.
     - (* While *)
       intros m c b IHb Hfix ix. cbn [ren_s] in Hfix. injection Hfix as Hc Hb.
       unfold XSt. cbn [xstmt]. destruct (plain c); [|reflexivity].
-      change (kn' m) with (option_map f (kn m)). destruct (kn m) as [k|]; cbn [option_map]; [|reflexivity].
+      change (kn' m) with (option_map f (kn m)). destruct (kn m) as [k|] eqn:Ek; cbn [option_map]; [|reflexivity].
       pose proof (IHb Hb [ArrayAccess (Variable_ m k [])]) as Hbody. unfold XSt in Hbody.
       cbn [map ren_a ren_e] in Hbody. rewrite Hbody.
       destruct (xstmt sig_of cn kn [ArrayAccess (Variable_ m k [])] b) as [[b' d]|]; cbn [option_map ren_sd fst snd]; [|reflexivity].
-      destruct d as [|d0 d]; cbn [map option_map]; unfold ren_sd; cbn [fst snd ren_s ren_e map app]; rewrite Hc; reflexivity.
+      rewrite (existsb_counted_ren m k Ek d).
+      destruct (existsb (counted_by k) d); cbn [map option_map]; unfold ren_sd; cbn [fst snd ren_s ren_e map app];
+        rewrite ?map_app; cbn [map ren_s ren_e]; rewrite Hc; reflexivity.
     - (* Return *)
       intros m v Hfix ix. unfold XSt. cbn [xstmt]. destruct (plain v); [|reflexivity].
       unfold ren_sd. cbn [option_map fst snd map]. rewrite Hfix. reflexivity.
@@ -468,14 +492,18 @@ End Alpha.
    uses, the expansion under the naming scheme "f after (comp_name, counter_name)"
    is the [f]-renamed expansion under (comp_name, counter_name); defined for the
    same bodies. *)
+Definition counters_separate (f : string -> string) (counter_name : meta -> option string) : Prop :=
+  forall m k x, counter_name m = Some k -> f x = f k -> x = k.
+
 Theorem expand_spec_naming_independent :
   forall (f : string -> string) sig_of comp_name counter_name body,
     fixes_names f body ->
+    counters_separate f counter_name ->
     expand_spec sig_of (fun id m => option_map f (comp_name id m)) (fun m => option_map f (counter_name m)) body =
     option_map (ren_s f) (expand_spec sig_of comp_name counter_name body).
 Proof.
-  intros f sig_of cn kn body Hfix.
-  exact (expand_spec_ren_fix f sig_of cn kn body (ren_s_fix f body Hfix)).
+  intros f sig_of cn kn body Hfix Hsep.
+  exact (expand_spec_ren_fix f sig_of cn kn Hsep body (ren_s_fix f body Hfix)).
 Qed.
 
 (* with C18_desugar_is_expand: the desugarer's output, renamed, is the specified
@@ -486,11 +514,12 @@ Theorem desugar_is_expand_up_to_names :
     Forall wf_node (stmt_exprs (Block m l)) ->
     Forall short_node (sub_stmts (Block m l)) ->
     fixes_names f (Block m l) ->
+    counters_separate f (name_opt lib "anon_var") ->
     option_map (ren_s f) (to_opt (desugar_template (env_of ts) lib (Block m l))) =
     expand_spec (sig_table ts) (fun id mm => option_map f (name_opt lib id mm))
                 (fun mm => option_map f (name_opt lib "anon_var" mm)) (Block m l).
 Proof.
-  intros f lib ts m l Hwf Hshort Hfix.
+  intros f lib ts m l Hwf Hshort Hfix Hsep.
   rewrite (desugar_is_expand lib ts m l Hwf Hshort).
-  symmetry. apply expand_spec_naming_independent. exact Hfix.
+  symmetry. apply expand_spec_naming_independent; assumption.
 Qed.
